@@ -1069,6 +1069,18 @@ func (ex *Exec) sliceExpr(st *State, e *ast.SliceExpr) *Val {
 			hi = intLit(u.Len())
 		}
 		ex.safetyOb(st, "bounds", e.Pos(), and(ge(lo, intLit(0)), le(lo, hi), le(hi, intLit(u.Len()))))
+		// a package-level array (or an array field of an object that is not
+		// a local value) is storage that exists before and after this call
+		// and that every other call sees: the slice aliases it.  It gets a
+		// stable reference that is *not* fresh, with unknown contents.
+		if shared, name := ex.sharedArray(e.X); shared {
+			ref := ex.D.konst("Garr$"+smtName(name), SInt)
+			st.assume(gt(ref, intLit(0)))
+			st.assume(lt(ref, ex.D.konst("$alloc@0", SInt)))
+			r := ex.mkSlice(st, ref, lo, sub(hi, lo), sub(intLit(u.Len()), lo))
+			ex.W.Unsup["slice of the package-level array "+name+": aliases storage shared by all calls (contents unknown, never fresh)"] = true
+			return &Val{T: types.NewSlice(u.Elem()), Term: r}
+		}
 		ref := ex.newRef(st)
 		n, _ := ex.memName(u.Elem())
 		m := ex.mem(st, u.Elem())
@@ -1254,4 +1266,17 @@ func (w *World) addrTakenFields() map[*types.Var]bool {
 		}
 	}
 	return w.addrTaken
+}
+
+// sharedArray: x is a package-level array variable (possibly parenthesised).
+func (ex *Exec) sharedArray(x ast.Expr) (bool, string) {
+	id, ok := ast.Unparen(x).(*ast.Ident)
+	if !ok {
+		return false, ""
+	}
+	v, ok := ex.Info.ObjectOf(id).(*types.Var)
+	if !ok || v.Pkg() == nil || v.Parent() != v.Pkg().Scope() {
+		return false, ""
+	}
+	return true, v.Pkg().Name() + "." + v.Name()
 }
